@@ -99,6 +99,8 @@ class Fn:
         self._dom = None
         self._pdom = None
         self._defs = None
+        self._ememo = {}
+        self._cyc = 0
 
     # -- basic
     def ty(self, ix):
@@ -332,7 +334,11 @@ class Fn:
             if not self.defs().get(l):
                 return ('arg', l)
         if l in seen or depth > 40:
+            self._cyc += 1
             return ('cycle', l)
+        if l in self._ememo:
+            return self._ememo[l]
+        cyc0 = self._cyc
         ds = self.defs().get(l, [])
         if not ds:
             if 1 <= l <= self.argc:
@@ -352,10 +358,15 @@ class Fn:
                     exprs.append(('call', c, args, bb))
             else:
                 exprs.append(self.expr_of_rvalue(payload, depth + 1, seen, bb))
-        # drop-flag style double const defs are harmless
-        if len(exprs) == 1:
-            return exprs[0]
-        return ('phi', tuple(exprs))
+        # identical alternatives (blocks duplicated by drop elaboration or by jump threading in a view) are one
+        uniq = []
+        for e in exprs:
+            if not any(e is u or e == u for u in uniq):
+                uniq.append(e)
+        res = uniq[0] if len(uniq) == 1 else ('phi', tuple(uniq))
+        if self._cyc == cyc0:
+            self._ememo[l] = res      # no cycle cut inside: the expression does not depend on the caller's context
+        return res
 
     def expr_of_rvalue(self, rv, depth, seen, bb=None):
         k = rv['k']
